@@ -75,3 +75,40 @@ pub fn reason_class(r: &str) -> String {
     }
     out
 }
+
+/// Compilation of some programs is not deterministic (finding C11-column-order-hash-dependent).
+/// Two computations are reported as different only if repeated evaluation of each yields
+/// disjoint sets of outputs.
+pub fn genuinely_different(a: &dyn Fn() -> String, b: &dyn Fn() -> String) -> bool {
+    let mut sa: Vec<String> = vec![];
+    let mut sb: Vec<String> = vec![];
+    for _ in 0..10 {
+        let x = a();
+        if !sa.contains(&x) {
+            sa.push(x);
+        }
+        let y = b();
+        if !sb.contains(&y) {
+            sb.push(y);
+        }
+    }
+    !sa.iter().any(|x| sb.contains(x))
+}
+
+/// sources of the repository's integration queries (small seed corpus of real programs)
+pub fn repo_queries() -> Vec<String> {
+    let mut v = vec![];
+    let dir = std::path::Path::new("/repo/prqlc/prqlc/tests/integration/queries");
+    if let Ok(rd) = std::fs::read_dir(dir) {
+        let mut files: Vec<_> = rd.filter_map(|e| e.ok().map(|e| e.path())).collect();
+        files.sort();
+        for f in files {
+            if f.extension().map(|e| e == "prql").unwrap_or(false) {
+                if let Ok(s) = std::fs::read_to_string(&f) {
+                    v.push(s);
+                }
+            }
+        }
+    }
+    v
+}
